@@ -10,7 +10,7 @@ own epoch stays 0 and every version is created by `TxId::SYSTEM`, so a version c
 of `liveC` (one version, not deleted) or `deadC` (the same version, stamped deleted).
 -/
 
-namespace Grafeo.Lpg
+namespace Grafeo.Lpg.Paths
 
 /-! ### association lists -/
 
@@ -1098,4 +1098,420 @@ theorem delEdges_ok (s : Store) (h : EdgeInv s) (es : List Nat) :
       · subst he; simp
       · simp [he]
 
-end Grafeo.Lpg
+/-! ### the remaining store functions, written out -/
+
+theorem alive_liveC : chainAlive liveC = true := by decide
+theorem alive_deadC : chainAlive deadC = false := by decide
+
+/-- `set_node_property`, written out: nothing happens unless the node is live (the repaired code) -/
+theorem setNodeProp_eq (s : Store) (h : NodeInv s) (id k : Nat) (v : String) :
+    s.setNodeProp id k v =
+      if nodeLive s id then
+        { s with nprops := aset s.nprops id (aset (s.nodePropsOf id) k v),
+                 pidx := pxSet s.pidx k (aget (s.nodePropsOf id) k) v id }
+      else s := by
+  unfold Store.setNodeProp
+  by_cases hl : nodeLive s id
+  · rw [if_pos hl]
+    have hl' : aget s.nodes id = some liveC := hl
+    rw [hl']
+    simp only [Option.map_some, Option.getD_some, alive_liveC, Bool.not_true, Bool.false_eq_true, if_false]
+    rfl
+  · rw [if_neg hl]
+    have hl' : ¬ aget s.nodes id = some liveC := hl
+    cases hg : aget s.nodes id with
+    | none => simp
+    | some c =>
+      rcases h.chains id c hg with rfl | rfl
+      · exact absurd hg hl'
+      · simp [alive_deadC]
+
+/-- `set_edge_property`, written out: nothing happens unless the edge is live (the repaired code) -/
+theorem setEdgeProp_eq (s : Store) (h : EdgeInv s) (e k : Nat) (v : String) :
+    s.setEdgeProp e k v =
+      if (liveRec s e).isSome = true then
+        { s with eprops := aset s.eprops e (aset ((aget s.eprops e).getD []) k v) }
+      else s := by
+  unfold Store.setEdgeProp liveRec
+  cases hg : aget s.edges e with
+  | none => simp
+  | some cr =>
+    obtain ⟨c, r⟩ := cr
+    rcases h.chains e c r hg with rfl | rfl
+    · simp [alive_liveC]
+    · simp [alive_deadC, liveC_ne_deadC.symm]
+
+theorem removeNodeProp_eq (s : Store) (id k : Nat) :
+    (s.removeNodeProp id k).1 =
+      { s with nprops := if (aget s.nprops id).isSome then aset s.nprops id (aerase (s.nodePropsOf id) k) else s.nprops,
+               pidx := match aget (s.nodePropsOf id) k with
+                 | some o => pxRemove s.pidx k o id
+                 | none => s.pidx } := by
+  unfold Store.removeNodeProp pxRemove
+  cases h1 : aget s.pidx k <;> cases h2 : aget (s.nodePropsOf id) k <;> rfl
+
+theorem addLabel_eq (s : Store) (h : NodeInv s) (id l : Nat) :
+    (s.addLabel id l).1 =
+      if nodeLive s id ∧ l ∉ s.nodeLabelsOf id then
+        { s with nodeLabels := aset s.nodeLabels id (s.nodeLabelsOf id ++ [l]),
+                 labelIdx := aset s.labelIdx l (sinsert ((aget s.labelIdx l).getD []) id) }
+      else s := by
+  unfold Store.addLabel
+  by_cases hl : nodeLive s id
+  · have hl' : aget s.nodes id = some liveC := hl
+    rw [hl']
+    simp only [h.epoch0, vis_liveC, Bool.not_true, Bool.false_eq_true, if_false, hl, true_and]
+    by_cases hm : l ∈ s.nodeLabelsOf id
+    · simp [hm]
+    · simp [hm]
+  · have hn : ¬ (nodeLive s id ∧ l ∉ s.nodeLabelsOf id) := fun a => hl a.1
+    rw [if_neg hn]
+    have hl' : ¬ aget s.nodes id = some liveC := hl
+    cases hg : aget s.nodes id with
+    | none => rfl
+    | some c =>
+      rcases h.chains id c hg with rfl | rfl
+      · exact absurd hg hl'
+      · simp [h.epoch0, vis_deadC]
+
+theorem removeLabel_eq (s : Store) (h : NodeInv s) (id l : Nat) :
+    (s.removeLabel id l).1 =
+      if nodeLive s id ∧ l ∈ s.nodeLabelsOf id then
+        { s with nodeLabels := aset s.nodeLabels id (serase (s.nodeLabelsOf id) l),
+                 labelIdx := match aget s.labelIdx l with
+                   | some set => aset s.labelIdx l (serase set id)
+                   | none => s.labelIdx }
+      else s := by
+  unfold Store.removeLabel
+  by_cases hl : nodeLive s id
+  · have hl' : aget s.nodes id = some liveC := hl
+    rw [hl']
+    simp only [h.epoch0, vis_liveC, Bool.not_true, Bool.false_eq_true, if_false, hl, true_and]
+    unfold Store.nodeLabelsOf
+    cases hg : aget s.nodeLabels id with
+    | none => simp
+    | some ls =>
+      simp only [Option.getD_some]
+      by_cases hm : l ∈ ls
+      · simp only [hm, not_true_eq_false, if_false, if_true]
+        cases aget s.labelIdx l <;> rfl
+      · simp [hm]
+  · have hn : ¬ (nodeLive s id ∧ l ∈ s.nodeLabelsOf id) := fun a => hl a.1
+    rw [if_neg hn]
+    have hl' : ¬ aget s.nodes id = some liveC := hl
+    cases hg : aget s.nodes id with
+    | none => rfl
+    | some c =>
+      rcases h.chains id c hg with rfl | rfl
+      · exact absurd hg hl'
+      · simp [h.epoch0, vis_deadC]
+
+theorem createIndex_eq (s : Store) (k : Nat) :
+    s.createIndex k =
+      if (aget s.pidx k).isSome then s
+      else { s with pidx := aset s.pidx k (buildIdx (fun id => aget (s.nodePropsOf id) k) s.nodeIds []) } := rfl
+
+theorem createEdge_eq (s : Store) (a b t : Nat) (h0 : s.epoch = 0) :
+    (s.createEdge a b t s.epoch systemTx).1 =
+      { s with nextEdge := s.nextEdge + 1, edges := aset s.edges s.nextEdge (liveC, ⟨a, b, t⟩),
+               fwd := adjAdd s.fwd a b s.nextEdge,
+               bwd := if s.hasBwd then adjAdd s.bwd b a s.nextEdge else s.bwd } := by
+  unfold Store.createEdge; rw [h0]; rfl
+
+/-! ### property table ⟷ property indexes -/
+
+/-- the property map stored for `id` -/
+def propsOf (np : AList (AList String)) (id : Nat) : AList String := (aget np id).getD []
+
+theorem nodePropsOf_eq (s : Store) (id : Nat) : s.nodePropsOf id = propsOf s.nprops id := rfl
+
+theorem propsOf_aset (np : AList (AList String)) (id : Nat) (ps : AList String) (id' : Nat) :
+    propsOf (aset np id ps) id' = if id' = id then ps else propsOf np id' := by
+  unfold propsOf; rw [aget_aset]; split <;> rfl
+
+theorem propsOf_aerase (np : AList (AList String)) (id id' : Nat) :
+    propsOf (aerase np id) id' = if id' = id then [] else propsOf np id' := by
+  unfold propsOf; rw [aget_aerase]; split <;> rfl
+
+/-- the table after `remove_node_property` -/
+theorem propsOf_remove (np : AList (AList String)) (id k id' : Nat) :
+    propsOf (if (aget np id).isSome then aset np id (aerase (propsOf np id) k) else np) id' =
+      if id' = id then aerase (propsOf np id) k else propsOf np id' := by
+  cases h : aget np id with
+  | some ps => simp only [Option.isSome_some, if_true]; exact propsOf_aset ..
+  | none =>
+    simp only [Option.isSome_none, Bool.false_eq_true, if_false]
+    split
+    · rename_i e; subst e; unfold propsOf; rw [h]; rfl
+    · rfl
+
+theorem mem_of_aget {ν : Type} (l : AList ν) (k : Nat) (v : ν) (h : aget l k = some v) : (k, v) ∈ l := by
+  induction l with
+  | nil => simp [aget] at h
+  | cons kv rest ih =>
+    obtain ⟨k0, v0⟩ := kv
+    simp only [aget] at h
+    by_cases h0 : k0 = k
+    · simp only [h0, if_true, Option.some.injEq] at h; subst h; subst h0; exact List.mem_cons_self ..
+    · simp only [h0, if_false] at h; exact List.mem_cons_of_mem _ (ih h)
+
+theorem idxBucket_aset (px : PIdx) (k : Nat) (vals : List (String × List Nat)) (k' : Nat) (v : String) :
+    idxBucket (aset px k vals) k' v = if k' = k then bucket vals v else idxBucket px k' v := by
+  unfold idxBucket; rw [aget_aset]
+  by_cases h : k' = k
+  · simp [h]
+  · simp [h]
+
+theorem idxBucket_aerase (px : PIdx) (k k' : Nat) (v : String) :
+    idxBucket (aerase px k) k' v = if k' = k then [] else idxBucket px k' v := by
+  unfold idxBucket; rw [aget_aerase]
+  by_cases h : k' = k
+  · simp [h]
+  · simp [h]
+
+/-- every index entry is backed by the property table -/
+def PxSound (np : AList (AList String)) (px : PIdx) : Prop :=
+  ∀ k v id, id ∈ idxBucket px k v → aget (propsOf np id) k = some v
+
+/-- every stored value of an indexed key has its index entry -/
+def PxExact (np : AList (AList String)) (px : PIdx) : Prop :=
+  ∀ k v id, (aget px k).isSome = true → aget (propsOf np id) k = some v → id ∈ idxBucket px k v
+
+theorem pxSound_set (np px) (id k : Nat) (v : String) (hw : PxWf px) (h : PxSound np px) :
+    PxSound (aset np id (aset (propsOf np id) k v)) (pxSet px k (aget (propsOf np id) k) v id) := by
+  intro k' v' x hx
+  rw [mem_idxBucket_pxSet _ _ _ _ _ _ _ _ hw] at hx
+  rw [propsOf_aset]
+  rcases hx with ⟨_, rfl, rfl, rfl⟩ | ⟨hm, hn⟩
+  · simp [aget_aset]
+  · have := h k' v' x hm
+    by_cases hxi : x = id
+    · subst hxi
+      simp only [if_true, aget_aset]
+      by_cases hk : k' = k
+      · subst hk; exact absurd ⟨rfl, rfl, this⟩ hn
+      · simp [hk, this]
+    · simp [hxi, this]
+
+theorem pxExact_set (np px) (id k : Nat) (v : String) (hw : PxWf px) (h : PxExact np px) :
+    PxExact (aset np id (aset (propsOf np id) k v)) (pxSet px k (aget (propsOf np id) k) v id) := by
+  intro k' v' x hs hp
+  rw [pxSet_isSome] at hs
+  rw [propsOf_aset] at hp
+  rw [mem_idxBucket_pxSet _ _ _ _ _ _ _ _ hw]
+  by_cases hxi : x = id
+  · subst hxi
+    simp only [if_true, aget_aset] at hp
+    by_cases hk : k' = k
+    · subst hk
+      simp only [if_true, Option.some.injEq] at hp
+      exact Or.inl ⟨hs, rfl, hp.symm, rfl⟩
+    · simp only [hk, if_false] at hp
+      exact Or.inr ⟨h k' v' x hs hp, fun a => hk a.1⟩
+  · simp only [hxi, if_false] at hp
+    exact Or.inr ⟨h k' v' x hs hp, fun a => hxi a.2.1⟩
+
+theorem pxWf_match_remove (px : PIdx) (k : Nat) (old : Option String) (id : Nat) (hw : PxWf px) :
+    PxWf (match old with | some o => pxRemove px k o id | none => px) := by
+  cases old with
+  | none => exact hw
+  | some o => exact pxWf_pxRemove px k o id hw
+
+theorem pxSound_remove (np px) (id k : Nat) (hw : PxWf px) (h : PxSound np px) :
+    PxSound (if (aget np id).isSome then aset np id (aerase (propsOf np id) k) else np)
+      (match aget (propsOf np id) k with | some o => pxRemove px k o id | none => px) := by
+  intro k' v' x hx
+  rw [propsOf_remove]
+  cases ho : aget (propsOf np id) k with
+  | none =>
+    rw [ho] at hx
+    have := h k' v' x hx
+    by_cases hxi : x = id
+    · subst hxi
+      simp only [if_true, aget_aerase]
+      by_cases hk : k' = k
+      · subst hk; rw [ho] at this; exact absurd this (by simp)
+      · simp [hk, this]
+    · simp [hxi, this]
+  | some o =>
+    rw [ho] at hx
+    simp only at hx
+    rw [idxBucket_pxRemove _ _ _ _ _ _ hw] at hx
+    by_cases hkv : k' = k ∧ v' = o
+    · obtain ⟨rfl, rfl⟩ := hkv
+      simp only [and_self, if_true, mem_serase] at hx
+      have := h k' v' x hx.2
+      simp [hx.1, this]
+    · simp only [hkv, if_false] at hx
+      have := h k' v' x hx
+      by_cases hxi : x = id
+      · subst hxi
+        simp only [if_true, aget_aerase]
+        by_cases hk : k' = k
+        · subst hk
+          rw [ho] at this
+          simp only [Option.some.injEq] at this
+          exact absurd ⟨rfl, this.symm⟩ hkv
+        · simp [hk, this]
+      · simp [hxi, this]
+
+theorem pxExact_remove (np px) (id k : Nat) (hw : PxWf px) (h : PxExact np px) :
+    PxExact (if (aget np id).isSome then aset np id (aerase (propsOf np id) k) else np)
+      (match aget (propsOf np id) k with | some o => pxRemove px k o id | none => px) := by
+  intro k' v' x hs hp
+  rw [propsOf_remove] at hp
+  have hx : ¬ (x = id ∧ k' = k) := by
+    rintro ⟨rfl, rfl⟩
+    simp [aget_aerase] at hp
+  have hp' : aget (propsOf np x) k' = some v' := by
+    by_cases hxi : x = id
+    · subst hxi
+      simp only [if_true, aget_aerase] at hp
+      have hk : ¬ k' = k := fun e => hx ⟨rfl, e⟩
+      simpa [hk] using hp
+    · simpa [hxi] using hp
+  cases ho : aget (propsOf np id) k with
+  | none =>
+    rw [ho] at hs
+    exact h k' v' x hs hp'
+  | some o =>
+    rw [ho] at hs
+    simp only at hs ⊢
+    rw [pxRemove_isSome] at hs
+    rw [idxBucket_pxRemove _ _ _ _ _ _ hw]
+    have hm := h k' v' x hs hp'
+    by_cases hkv : k' = k ∧ v' = o
+    · obtain ⟨rfl, rfl⟩ := hkv
+      simp only [and_self, if_true, mem_serase]
+      exact ⟨fun e => hx ⟨e, rfl⟩, hm⟩
+    · simp [hkv, hm]
+
+theorem pxSound_deleteNode (np px) (id : Nat) (hw : PxWf px) (h : PxSound np px) :
+    PxSound (aerase np id) (pxEraseAll px (propsOf np id) id) := by
+  intro k v x hx
+  rw [mem_idxBucket_pxEraseAll _ _ _ _ _ _ hw] at hx
+  rw [propsOf_aerase]
+  have := h k v x hx.1
+  by_cases hxi : x = id
+  · subst hxi
+    exact absurd ⟨rfl, mem_of_aget _ _ _ this⟩ hx.2
+  · simp [hxi, this]
+
+theorem pxExact_deleteNode (np px) (id : Nat) (hw : PxWf px) (h : PxExact np px) :
+    PxExact (aerase np id) (pxEraseAll px (propsOf np id) id) := by
+  intro k v x hs hp
+  rw [pxEraseAll_isSome] at hs
+  rw [propsOf_aerase] at hp
+  rw [mem_idxBucket_pxEraseAll _ _ _ _ _ _ hw]
+  by_cases hxi : x = id
+  · subst hxi; simp [aget] at hp
+  · simp only [hxi, if_false] at hp
+    exact ⟨h k v x hs hp, fun a => hxi a.1⟩
+
+theorem pxWf_createIndex (np : AList (AList String)) (px : PIdx) (k : Nat) (ids : List Nat) (hw : PxWf px) :
+    PxWf (aset px k (buildIdx (fun id => aget (propsOf np id) k) ids [])) := by
+  intro k' vals
+  rw [aget_aset]
+  split
+  · intro he
+    simp only [Option.some.injEq] at he
+    subst he
+    obtain ⟨a, b, _⟩ := buildIdx_ok (fun id => aget (propsOf np id) k) ids [] (by simp) (by simp [bucket_nil])
+    exact ⟨a, b⟩
+  · exact hw k' vals
+
+theorem pxSound_createIndex (np px) (k : Nat) (ids : List Nat) (h : PxSound np px) :
+    PxSound np (aset px k (buildIdx (fun id => aget (propsOf np id) k) ids [])) := by
+  intro k' v x hx
+  rw [idxBucket_aset] at hx
+  by_cases hk : k' = k
+  · subst hk
+    simp only [if_true] at hx
+    obtain ⟨_, _, c⟩ := buildIdx_ok (fun id => aget (propsOf np id) k') ids [] (by simp) (by simp [bucket_nil])
+    rw [c v x] at hx
+    simp only [bucket_nil, List.not_mem_nil, false_or] at hx
+    exact hx.2
+  · simp only [hk, if_false] at hx
+    exact h k' v x hx
+
+theorem pxExact_createIndex (np px) (k : Nat) (ids : List Nat) (h : PxExact np px)
+    (hids : ∀ id v, aget (propsOf np id) k = some v → id ∈ ids) :
+    PxExact np (aset px k (buildIdx (fun id => aget (propsOf np id) k) ids [])) := by
+  intro k' v x hs hp
+  rw [idxBucket_aset]
+  by_cases hk : k' = k
+  · subst hk
+    simp only [if_true]
+    obtain ⟨_, _, c⟩ := buildIdx_ok (fun id => aget (propsOf np id) k') ids [] (by simp) (by simp [bucket_nil])
+    rw [c v x]
+    exact Or.inr ⟨hids x v hp, hp⟩
+  · rw [aget_aset] at hs
+    simp only [hk, if_false] at hs ⊢
+    exact h k' v x hs hp
+
+theorem pxWf_dropIndex (px : PIdx) (k : Nat) (hw : PxWf px) : PxWf (aerase px k) := by
+  intro k' vals
+  rw [aget_aerase]
+  split
+  · intro he; exact absurd he (by simp)
+  · exact hw k' vals
+
+theorem pxSound_dropIndex (np px) (k : Nat) (h : PxSound np px) : PxSound np (aerase px k) := by
+  intro k' v x hx
+  rw [idxBucket_aerase] at hx
+  split at hx
+  · simp at hx
+  · exact h k' v x hx
+
+theorem pxExact_dropIndex (np px) (k : Nat) (h : PxExact np px) : PxExact np (aerase px k) := by
+  intro k' v x hs hp
+  rw [aget_aerase] at hs
+  rw [idxBucket_aerase]
+  split at hs
+  · simp at hs
+  · rename_i hk; simp only [hk, if_false]; exact h k' v x hs hp
+
+/-! ### label index: no duplicates -/
+
+def LblNodup (idx : AList (List Nat)) : Prop := ∀ l, ((aget idx l).getD []).Nodup
+
+theorem lblNodup_insert (idx : AList (List Nat)) (l id : Nat) (h : LblNodup idx) :
+    LblNodup (aset idx l (sinsert ((aget idx l).getD []) id)) := by
+  intro l'
+  rw [aget_aset]
+  split
+  · exact nodup_sinsert _ _ (h l)
+  · exact h l'
+
+theorem lblNodup_insertAll (idx : AList (List Nat)) (ls : List Nat) (id : Nat) (h : LblNodup idx) :
+    LblNodup (idxInsertAll idx ls id) := by
+  induction ls generalizing idx with
+  | nil => exact h
+  | cons l rest ih =>
+    unfold idxInsertAll at ih ⊢
+    simp only [List.foldl_cons]
+    exact ih _ (lblNodup_insert idx l id h)
+
+theorem lblNodup_erase (idx : AList (List Nat)) (l id : Nat) (h : LblNodup idx) :
+    LblNodup (match aget idx l with | some set => aset idx l (serase set id) | none => idx) := by
+  cases hg : aget idx l with
+  | none => exact h
+  | some set =>
+    intro l'
+    simp only [aget_aset]
+    split
+    · have := h l
+      rw [hg] at this
+      exact nodup_serase _ _ this
+    · exact h l'
+
+theorem lblNodup_eraseAll (idx : AList (List Nat)) (ls : List Nat) (id : Nat) (h : LblNodup idx) :
+    LblNodup (idxEraseAll idx ls id) := by
+  induction ls generalizing idx with
+  | nil => exact h
+  | cons l rest ih =>
+    unfold idxEraseAll at ih ⊢
+    simp only [List.foldl_cons]
+    exact ih _ (lblNodup_erase idx l id h)
+
+end Grafeo.Lpg.Paths
